@@ -79,3 +79,38 @@ pub fn fp_control_state() -> u64 {
         0
     }
 }
+
+/// What a fresh allocation holds is unspecified.  The harness' global allocator makes that a
+/// seeded part of the environment: every block handed back to the allocator is first filled
+/// with a byte pattern that follows the run's heap seed, so memory the code under test reads
+/// before writing it (`Array::uninit`, `set_len`, a buffer "every element of which gets
+/// written") holds different garbage in different simulated environments - and the same garbage
+/// when a run is replayed.  (glibc overwrites the first 16 bytes of a freed chunk with its own
+/// links; blocks large enough to be mapped afresh come zeroed from the kernel.)
+pub struct PoisoningAllocator;
+static POISON: std::sync::atomic::AtomicU8 = std::sync::atomic::AtomicU8::new(0);
+
+pub fn set_heap_poison(heap_seed: u64) {
+    // reference environment: zeros - what a quiet heap mostly shows
+    let b = if heap_seed == 0 { 0 } else { 0x40 | (crate::prng::mix3(heap_seed, 0x9015, 0) as u8 & 0x3f) };
+    POISON.store(b, Ordering::Relaxed);
+}
+
+unsafe impl std::alloc::GlobalAlloc for PoisoningAllocator {
+    unsafe fn alloc(&self, l: std::alloc::Layout) -> *mut u8 {
+        std::alloc::System.alloc(l)
+    }
+    unsafe fn alloc_zeroed(&self, l: std::alloc::Layout) -> *mut u8 {
+        std::alloc::System.alloc_zeroed(l)
+    }
+    unsafe fn realloc(&self, p: *mut u8, l: std::alloc::Layout, n: usize) -> *mut u8 {
+        std::alloc::System.realloc(p, l, n)
+    }
+    unsafe fn dealloc(&self, p: *mut u8, l: std::alloc::Layout) {
+        // small and medium blocks only: those are the ones that get recycled
+        if l.size() <= (1 << 17) {
+            std::ptr::write_bytes(p, POISON.load(Ordering::Relaxed), l.size());
+        }
+        std::alloc::System.dealloc(p, l)
+    }
+}
